@@ -429,7 +429,7 @@ func init() {
 				"secure-verify-ca-secret": {"b/ca", "a/ca", "ca", "secret://a/ca", "b/tls1"},
 				"auth-tls-secret":         {"b/ca", "a/ca", "ca", "secret://b/ca", "a/tls1"},
 				"auth-secret":             {"b/auth", "a/auth", "auth", "secret://a/auth"},
-				"auth-url":                {"svc://a/s2:80", "svc://b/s3:80", "svc://b/s1:80/check", "svc://s2:80", "http://10.9.9.9:8000/auth"},
+				"auth-url":                {"svc://a/s2:8080", "svc://b/s3:8081", "svc://b/s1:8080/check", "svc://a/s1:8080", "svc://s2:8080", "svc://b/s3:80", "http://10.9.9.9:8000/auth"},
 				"auth-tls-verify-client":  {"optional", "on"},
 				"secure-backends":         {"true"},
 			}
